@@ -37,7 +37,7 @@ def run_main(mod, argv):
     buf = io.StringIO()
     code = None
     try:
-        with contextlib.redirect_stdout(buf):
+        with contextlib.redirect_stdout(buf), contextlib.redirect_stderr(buf):
             try:
                 mod.main()
             except SystemExit as e:
@@ -189,8 +189,13 @@ def run(ctx):
             return sk
         ecdsa.SigningKey.generate = gen_wrap
         try:
-            code, out = run_main(signonetime, ["signonetime", "-a", ",".join(q for q, _ in local),
-                                               "-p", pub_path])
+            # every option the tool offers is exercised: the long and short spellings, with and without -v
+            argv = ["signonetime", "-a", ",".join(q for q, _ in local), "-p", pub_path]
+            if r % 4 == 1:
+                argv.append("-v")
+            elif r % 4 == 2:
+                argv = ["signonetime", "--app", ",".join(q for q, _ in local), "--publickey", pub_path, "--verbose"]
+            code, out = run_main(signonetime, argv)
         finally:
             ecdsa.SigningKey.generate = orig
         res["evaluations"] += 1
@@ -223,8 +228,14 @@ def run(ctx):
                                           "verify (DER, secp256k1) under the written public key for the "
                                           "image's hash" % os.path.basename(q)})
         # the private key must be written nowhere
+        import base64 as _b64
         needles = [sk.to_string(), sk.to_string().hex().encode(), sk.to_string().hex().upper().encode(),
-                   sk.to_der(), sk.to_pem()]
+                   sk.to_der(), sk.to_pem(), _b64.b64encode(sk.to_string()), sk.to_der().hex().encode(),
+                   str(int.from_bytes(sk.to_string(), "big")).encode(), repr(sk.to_string()).encode()]
+        # ... including the terminal
+        if any(nd in out.encode("utf-8", "replace") for nd in needles):
+            res["violations"].append({"key": "C19:private-key-printed", "what": "the run's private key appears in "
+                                      "the tool's output (options %r)" % (argv[1::2],)})
         for root, _, files in os.walk(rd):
             for fn in files:
                 blob = open(os.path.join(root, fn), "rb").read()
